@@ -14,7 +14,7 @@ from common import Rng, REPO, VERIF
 
 PID = "C12"
 NAMES = ["check_image", "allocations", "references", "forward_buckets", "backward_buckets", "character_records",
-         "cell_records", "forward_pass_chains", "backward_pass_chains", "every_rule_is_linked", "multipass_program_bounds"]
+         "cell_records", "forward_pass_chains", "backward_pass_chains", "every_rule_is_linked", "bounds_of_programs_patterns_and_display_records"]
 
 
 def to_model(line):
